@@ -22,7 +22,7 @@ RULE_HOME = {
     'G1': 'g_thread', 'G3': 'g_thread',
     'G5': 'g_cover', 'G8': 'g_cover',
     'G6': 'g_alt', 'G7': 'g_alt',
-    'G0': 'g_struct', 'G9': 'g_struct', 'G10': 'g_struct', 'G11': 'g_struct', 'G12': 'g_struct', 'G13': 'g_struct',
+    'G0': 'g_struct', 'G9': 'g_struct', 'G10': 'g_struct', 'G11': 'g_struct', 'G12': 'g_struct', 'G13': 'g_struct', 'G14': 'g_struct',
     'K1': 'k_keywords', 'K2': 'k_keywords', 'K3': 'k_keywords', 'K4': 'k_keywords',
     'T1': 't_tree', 'T2': 't_tree', 'T3': 't_tree', 'G4c': 't_tree',
     'X1': 'x_pp', 'X2': 'x_pp', 'X3': 'x_pp', 'X5': 'x_pp', 'X6': 'x_pp', 'X7': 'x_pp',
@@ -96,7 +96,7 @@ PROPS = {
         'needs_exp': True,
     },
     'C02': {
-        'rules': [rule('G5'), rule('G6'), rule('G7', drop=LOOKAHEAD), rule('G8')],
+        'rules': [rule('G5'), rule('G6'), rule('G7', drop=LOOKAHEAD), rule('G8'), rule('G1'), rule('G3'), rule('T1'), rule('T2')],
         'explanation': 'Necessary conditions for "accepted and classified under their production", anchored in the three stated '
                        'mechanisms. One parser per production, every production addressable: every parser is reachable from an '
                        'entry and every CST struct / enum variant (the repository\'s own copy of Annex A: 936 structs, 1048 '
@@ -104,7 +104,7 @@ PROPS = {
                        'keyword (G8). Ordered choice picks the intended production: no alternative is shadowed by an earlier '
                        'literal alternative (G6). Keywords need a word boundary: word-shaped terminals go through keyword(), '
                        'whose every success path tests the boundary over the identifier alphabet (G7).',
-        'decided': 'G5 G6 G7a/c G8 — coverage, ordering and word-boundary necessary conditions',
+        'decided': 'G5 G6 G7a/c G8 — coverage, ordering and word-boundary necessary conditions; G1 G3 T1 T2 for the clause "every identifier or keyword of the source is exactly one leaf / each construct appears exactly once" (consumed outputs are kept once, children are enumerated once, in order)',
         'not_decided': 'acceptance of all Annex A sentences (needs the Annex A BNF, absent from the repository, and a PEG/CFG inclusion '
                        'check); non-literal shadowing between alternatives',
         'assumptions': ['the CST type definitions are the reference for "the Annex A node kind of a construct"'],
@@ -176,7 +176,7 @@ PROPS = {
         'technique': 'named-parameter threading lint + must-adopt / control-dependence checks',
     },
     'C14': {
-        'rules': [rule('G10'), rule('W3'), rule('W1'), rule('G0')],
+        'rules': [rule('G10'), rule('W3'), rule('W1'), rule('G0'), rule('G14')],
         'explanation': 'Strict entries cannot succeed before end of input; bracket helpers demand both delimiters; no closing delimiter or '
                        'block-closing keyword is optional anywhere in the grammar (G10, G0); failures are mapped to Error::Parse '
                        'through the origin map of the parsed text and to Error::Preprocess with the path being read (W3), '
@@ -271,7 +271,7 @@ PROPS = {
         'needs_mir': True,
     },
     'C12': {
-        'rules': [rule('S3'), rule('G12'), rule('G5')],
+        'rules': [rule('S3'), rule('G0'), rule('G12'), rule('G14'), rule('G5')],
         'explanation': 'A directive parsed as trivia leaves the directive stack and the keyword-version stack as it found them on every '
                        'path: forward dataflow over the MIR CFG of all 8310 bodies of the parser crate computes the net effect at each '
                        'return; every body is neutral except the two directives whose meaning is the effect (S3). Every grammar-level '
